@@ -1,6 +1,7 @@
 import Rtsp.Proofs.Ledger.ErrorClose
 import Rtsp.Proofs.Ledger.Release
 import Rtsp.Proofs.Ledger.Isolation
+import Rtsp.Proofs.Ledger.Timeouts
 /-
 # C11 — the server survives hostile control connections and cleans up after them
 
@@ -17,7 +18,7 @@ open Rtsp.Ledger Rtsp.Facts.Ledger
 
 /-- **The code still has the shape the model mirrors** (facts regenerated from /repo on every run):
 the `chRemoveConn` rule, the tear-down orders of `ServerConn.run` / `ServerSession.run`, the read
-deadlines (armed before the first byte; disabled only while recording), every 400 / 454 returned
+deadlines (armed before the first byte; disabled only while recording over UDP; restored by PAUSE), every 400 / 454 returned
 together with an error, the response written before the error is returned, frames / responses in
 `readFuncStandard` end the connection, `wsNetConn.Close` does not panic, a failed RECORD is undone. -/
 theorem code_shape :
@@ -26,7 +27,8 @@ theorem code_shape :
     unexpectedFrameCloses = 1 ∧ unexpectedResponseCloses = 2 ∧ firstReadHasDeadline = true ∧
     recordDisablesDeadline = true ∧ tcpReaderDeadlines = 4 ∧ wsCloseImplemented = true ∧
     recordStartFailureUndone = true ∧ udpTimerArmedOnPlayAndRecord = 4 ∧ sessionNotFoundIsError = true ∧
-    badRequestSitesConn = badRequestAllConn ∧ badRequestSitesSession = badRequestAllSession := by
+    badRequestSitesConn = badRequestAllConn ∧ badRequestSitesSession = badRequestAllSession ∧
+    pauseRearmsDeadlines = true := by
   decide
 
 /-! ## every input is answered or the connection is closed -/
@@ -58,6 +60,27 @@ records — see `deadlineArmed`. -/
 theorem silence_closes (st : State) (c : Conn) (h : deadlineArmed st c = true) :
     Out.connClose c.id ∈ (connInput st c .idle).2 :=
   idle_closes st c h
+
+/-- **A time-out is always enabled: no connection can stay for ever by staying silent.**  In every
+reachable state, for every open connection `c`: either its read deadline is armed, and then
+silence (`idle`) closes it; or — the one case in which `readFuncStandard` sets no deadline — `c` is
+a listed member of a live session that records over UDP, whose own time-out is enabled and closes
+`c` with it.  (Together with `every_input_answered_or_closed`: within its timeouts the server
+answers or closes the connection.)  The proof needs two more invariants of all reachable states:
+no dangling session pointers (`Ptr`), and "an unarmed connection waits on a UDP recording" (`Arm`);
+the second one was false of the code before the fixes `paused-record-session-silent-conn` and
+`tcp-record-session-silent-conn` (known-findings.txt). -/
+theorem timeout_always_enabled (cfg : Config) (es : List Event) (c : Conn) (hc : c ∈ (run (init cfg) es).1.conns) :
+    (c.armed = true ∧ Out.connClose c.id ∈ (connInput (run (init cfg) es).1 c .idle).2) ∨
+    (∃ s ∈ (run (init cfg) es).1.sessions, c.session = some s.id ∧ c.id ∈ s.conns ∧ survivesAlone s = true ∧
+      Out.connClose c.id ∈ (step (run (init cfg) es).1 (.sessTimeout s.id)).2 ∧
+      ∀ x ∈ (step (run (init cfg) es).1 (.sessTimeout s.id)).1.conns, x.id ≠ c.id) := by
+  obtain ⟨hA, hp, h⟩ := all_run (arm_init cfg) (ptr_init cfg) (inv_init cfg) es
+  exact timeout_enabled hA hp h hc
+
+/-- no dangling pointers: a connection points only to a live session that lists it -/
+theorem pointers_valid (cfg : Config) (es : List Event) : Ptr (run (init cfg) es).1 :=
+  (all_run (arm_init cfg) (ptr_init cfg) (inv_init cfg) es).2.1
 
 /-! ## an error response closes the connection where the code does -/
 
@@ -236,5 +259,47 @@ example : PointsTo (run (init {}) twoPlayers).1 1 (some 1) ∧ Sep (run (init {}
 example : findConn (run (init {}) (twoPlayers ++ [.input 0 .malformed])).1 1 = findConn (run (init {}) twoPlayers).1 1 ∧
     findSess (run (init {}) (twoPlayers ++ [.input 0 .malformed])).1 1 = findSess (run (init {}) twoPlayers).1 1 ∧
     (run (init {}) (twoPlayers ++ [.input 0 .malformed])).1.sessions.length = 1 := by decide
+
+
+/-! ## why `other_conns_unaffected` is not about the UDP registrations — a finding
+
+The UDP listeners demultiplex by (IP, port).  A peer of the same address that claims the client
+ports of another session replaces that session's registration and, when it goes, removes it:
+`readerAdd` checks the ports only for the first SETUP of a reader.  (known-findings.txt, key
+`udp-port-collision-same-ip`; the harness reproduces it on the real server.) -/
+
+def victimSetup : Req := { method := .setup, trs := some [udpTr], setupPath := some 0, track := some 0 }
+def attackerSetup0 : Req :=
+  { method := .setup, setupPath := some 0, track := some 0,
+    trs := some [{ udp := true, mcast := false, secure := false, mode := 0, ports := some (6000, 6001), inter := none }] }
+def attackerSetup1 : Req := { method := .setup, sess := .id 1, trs := some [udpTr], setupPath := some 0, track := some 1 }
+
+/-- connection 1 plays over UDP on ports 5000/5001 (session 0); connection 0 sets up its second
+media on the same ports, plays and tears down: the RTCP registration of session 0 is gone although
+no input named session 0 or connection 1. -/
+def portCollision : List Event :=
+  [.accept 0, .accept 1,
+   .input 1 (.req victimSetup), .input 1 (.req { method := .play, sess := .id 0 }),
+   .input 0 (.req attackerSetup0), .input 0 (.req attackerSetup1),
+   .input 0 (.req { method := .play, sess := .id 1 })]
+
+theorem udp_port_collision_removes_registration :
+    (run (init {}) (portCollision.take 4)).1.udpRtcp = [(5001, 0)] ∧
+    (run (init {}) portCollision).1.udpRtcp = [(5001, 1), (6001, 1)] ∧
+    (run (init {}) (portCollision ++ [.input 0 (.req { method := .teardown, sess := .id 1 })])).1.udpRtcp = [] ∧
+    ((run (init {}) (portCollision ++ [.input 0 (.req { method := .teardown, sess := .id 1 })])).1.sessions.map
+      fun s => (s.id, s.state)) = [(0, .play)] := by decide
+
+
+/-- the unarmed case of `timeout_always_enabled` occurs: a UDP recorder waits without read deadline -/
+def udpRecTr : Tr := { udp := true, mcast := false, secure := false, mode := 2, ports := some (7000, 7001), inter := none }
+def udpRecorder : List Event :=
+  [.accept 0, .input 0 (.req { method := .announce, path := 1, sdp := .ok [0] }),
+   .input 0 (.req { method := .setup, trs := some [udpRecTr], recPath := 1, recCtl := some 0 }),
+   .input 0 (.req { method := .record, sess := .id 0, path := 1 })]
+
+example : ((run (init {}) udpRecorder).1.conns.map fun c => (c.id, c.armed)) = [(0, false)] ∧
+    (run (init {}) (udpRecorder ++ [.input 0 .idle])).2 = (run (init {}) udpRecorder).2 ∧
+    (step (run (init {}) udpRecorder).1 (.sessTimeout 0)).2 = [Out.connClose 0, Out.sessClose 0] := by decide
 
 end Rtsp.Ledger.C11
